@@ -181,6 +181,8 @@ def g7(ctx: Ctx):
                 line=I.peg.line(owner),
                 witness="" if ok else f"10 A={wit}",
                 facts={"converter": which},
+                # the parked defect is "these spellings are admitted"; a terminal that admits further bad spellings is new
+                signature=None if ok else "rejected by the converter: " + ", ".join(repr(x) for x in sorted(L.minus(targets[which]).witnesses(limit=6, maxlen=6), key=lambda x: (len(x), x))[:4]),
             )
 
 
